@@ -4,6 +4,8 @@
        events: C it | G <cfg> | S <cfg> | F f | R it0
    VEL dt n (t x)*                     -> hex values of v_<name>
    RUNAVE L stride it0 n (t x)*        -> "t av var sd ; ..."
+   OUT restartfreq it_restart nb (b f)* nev (C it | E it)*   -> "state@it colvar@it b0@it .."
+   RUNAVEV kind [period] L stride it0 dim n (t x{dim})* -> "t av,av,.. var sd ; ..."
    ACF type normalize len stride off dim n (t self{dim} other{dim})*  -> "nframes | lag val ; ..." *)
 open Model
 open X_fops
@@ -85,6 +87,29 @@ let () =
            let r = runave_run fops l stride it0 r0 None h in
            Printf.printf "%s\n" (String.concat " ; " (List.map (fun (((t, av), var), sd) ->
                Printf.sprintf "%d %s %s %s" (int_of_nat t) (hex av) (hex var) (hex sd)) r))
+         | "LABEL" ->
+           (* LABEL width prefix|- name : characters as they are *)
+           let width = nn () in let pre = next () in let name = next () in
+           let codes s = List.init (String.length s) (fun i -> nat_of_int (Char.code s.[i])) in
+           let pre = if pre = "-" then "" else pre in
+           let tok = label_token (codes pre) (codes name) width in
+           Printf.printf "%s\n" (String.concat "" (List.map (fun c -> String.make 1 (Char.chr (int_of_nat c))) tok))
+         | "OUT" ->
+           let rf = nz () in let itr = nz () in let nbs = ni () in
+           let bs = List.init nbs (fun _ -> let b = nz () in let f = nz () in (b, f)) in
+           let nev = ni () in
+           let evs = List.init nev (fun _ -> match next () with "C" -> OCalc (nz ()) | _ -> OEnd (nz ())) in
+           let w = out_run { oc_restart_freq = rf; oc_it_restart = itr; oc_biases = bs } evs in
+           Printf.printf "%s\n" (String.concat " " (List.map (fun (it, f) ->
+               (match f with FState -> "state" | FColvar -> "colvar" | FBias b -> "b" ^ string_of_int (int_of_z b)) ^ "@" ^ string_of_int (int_of_z it)) w))
+         | "RUNAVEV" ->
+           let kind = (match next () with
+               | "scalar" -> KScalar | "periodic" -> let p = nf () in KPeriodic (p, 0.0) | "vector3" -> KVector3 | _ -> KUnit3) in
+           let l = nn () in let stride = nn () in let it0 = nn () in let dim = ni () in let n = ni () in
+           let h = List.init n (fun _ -> let t = nn () in let x = List.init dim (fun _ -> nf ()) in (t, x)) in
+           let r = runaveV_run fops (lv_ops fops kind) l stride it0 rv0 None h in
+           Printf.printf "%s\n" (String.concat " ; " (List.map (fun (((t, av), var), sd) ->
+               Printf.sprintf "%d %s %s %s" (int_of_nat t) (String.concat "," (List.map hex av)) (hex var) (hex sd)) r))
          | "ACF" ->
            let ty = (match next () with "velocity" -> AcfVel | "coordinate" -> AcfCoor | _ -> AcfP2) in
            let norm = nb () in let len = nn () in let stride = nn () in let off = nn () in
